@@ -368,12 +368,31 @@ func SweepParams(thorough bool, seed int64, limit int) []Params {
 				Script: BuildScript(msgs, nil), Sched: Sched{Mode: schedModes[rng.Intn(len(schedModes))]}})
 		}
 	}
-	if limit > 0 && len(out) > limit {
-		rng.Shuffle(len(out), func(i, j int) { out[i], out[j] = out[j], out[i] })
-		out = out[:limit]
-		for i := range out {
-			out[i].ID = i + 1
+	// many short messages queued before anybody reads (what the owner does with a whole
+	// DeviceServiceInfo message, and the device with an OwnerServiceInfo message): buffered pipes
+	// asked for at least as many buffers as there are messages must take them all
+	many := []Params{}
+	for _, n := range []int{70, 140} {
+		var msgs []Msg
+		for i := 0; i < n; i++ {
+			msgs = append(msgs, Msg{Key: keyFor([]string{"a", "b", "c"}[i%3], 4), Len: 1 + rng.Intn(3)}) // neighbouring keys differ
 		}
+		for _, b := range []int{n + 1, 1000} {
+			p := Params{MTU: []int{1300, 65535, 256}[rng.Intn(3)], Buffers: b, InMode: inModes[rng.Intn(len(inModes))],
+				Script: BuildScript(msgs, nil), Sched: Sched{Mode: "writerfirst"}}
+			many = append(many, p)
+		}
+	}
+	if limit > 0 && len(out)+len(many) > limit {
+		rng.Shuffle(len(out), func(i, j int) { out[i], out[j] = out[j], out[i] })
+		out = out[:limit-len(many)]
+	}
+	for _, p := range many {
+		p.Sched.Seed = rng.Int63()
+		out = append(out, p)
+	}
+	for i := range out {
+		out[i].ID = i + 1
 	}
 	return out
 }
